@@ -8,9 +8,14 @@ from props.lefcommon import *
 HARNESS_BINS = ["c04"]
 
 UTF = ["é", "ß", "中", "\U0001F600", "́", "\u0085", " ", " ", "　", "Ж"]
+# numbers at the edges of rust_decimal (96-bit magnitude, 28 decimals) and of the lexer's i32/f64 number test: arithmetic on a
+# parsed number (a product, a scale change, a conversion) must not panic whatever its magnitude
+EXTREME_NUMBERS = ["79228162514264337593543950335", "-79228162514264337593543950335", "79228162514264337593543950336",
+                   "7922816251426433759354395034", "0.0000000000000000000000000001", "7.9228162514264337593543950335",
+                   "99999999999999999999999999999999999", "0.00000000000000000000000000000000001", "1e28", "1e-28", "1e400", "2147483648", "-2147483649"]
 TOKRE = re.compile(r'#[^\n]*|"[^"]*"?|;|[^\s]+')
 REPL = ["END", "MACRO", "LAYER", "PIN", "PORT", "RECT", "VERSION", "PROPERTY", "BEGINEXT", "ENDEXT", "UNITS", "ITERATE", "DO",
-        "1.5", "-3", "1e3", "5.3", "zz", ";", '"abc', '"s"', "#c", "-", ".", "LIBRARY", "OBS", "VIA", "DEFAULT", "SITE", "CLASS"]
+        "1.5", "-3", "1e3", "5.3", "zz", ";", '"abc', '"s"', "#c", "-", ".", "LIBRARY", "OBS", "VIA", "DEFAULT", "SITE", "CLASS"] + EXTREME_NUMBERS
 
 def tokens(s):
     return [(m.start(), m.end()) for m in TOKRE.finditer(s)]
@@ -54,6 +59,9 @@ def gen_cases(chk, texts):
               "VIA v VIARULE r ; CUTSIZE 1 1 ; END v", "VIA v FOO", "VIA v", "MACRO m PIN p PORT LAYER l ; VIA MASK 1 0 0 v ; END END p END m",
               "BUSBITCHARS \"[é\" ;", "BUSBITCHARS \"[]]\" ;", "DIVIDERCHAR \"中\" ;", "DIVIDERCHAR \"\" ;", "MACRO ééé SIZE 1 BY 1 ;\nFOO",
               "MACRO m\néééé éééé éééé x", "éééééééé VERSION", "MACRO m PROPERTY a ; END m", "MACRO m PROPERTY a",
+              *["VERSION %s ;" % n for n in EXTREME_NUMBERS], *["MACRO m SIZE %s BY %s ; END m" % (n, n) for n in EXTREME_NUMBERS],
+              *["UNITS DATABASE MICRONS %s ; END UNITS" % n for n in EXTREME_NUMBERS], *["MANUFACTURINGGRID %s ;" % n for n in EXTREME_NUMBERS[:6]],
+              *["MACRO m ORIGIN %s %s ; END m" % (n, n) for n in EXTREME_NUMBERS[:6]],
               "x" * 300 + " y", "é" * 250 + " y", "VERSION 5.8 ;\n" + "中" * 210 + "\nFOO", "MACRO m OBS LAYER l ; POLYGON 0 0 1 1 ; END END m"]:
         add("handpicked", s)
     # every prefix (on a character boundary)
